@@ -237,39 +237,50 @@ tl::expected<std::string, errors> canonicalize_protocol(
     return "";
   }
 
-  if (input.ends_with(":")) {
-    input.remove_suffix(1);
-  }
+  // Note: the caller (process protocol for init) has already removed the single
+  // trailing ':' the Standard allows; nothing more is stripped here.
 
   // Fast path: special schemes are already canonical
   if (scheme::is_special(input)) {
     return std::string(input);
   }
 
-  // Fast path: validate scheme chars and check for uppercase
-  // First char must be alpha (not +, -, ., or digit)
+  // Fast path: a plain scheme (ASCII alpha followed by scheme characters) only
+  // needs lowercasing.
   uint8_t first_flags = char_class_table[static_cast<uint8_t>(input[0])];
-  if (!(first_flags & CHAR_SCHEME) || input[0] == '+' || input[0] == '-' ||
-      input[0] == '.' || unicode::is_ascii_digit(input[0])) {
-    return tl::unexpected(errors::type_error);
-  }
-
+  bool plain_scheme = (first_flags & CHAR_SCHEME) && input[0] != '+' &&
+                      input[0] != '-' && input[0] != '.' &&
+                      !unicode::is_ascii_digit(input[0]);
   uint8_t needs_lowercase = first_flags & CHAR_UPPER;
-  for (size_t i = 1; i < input.size(); i++) {
+  for (size_t i = 1; plain_scheme && i < input.size(); i++) {
     uint8_t flags = char_class_table[static_cast<uint8_t>(input[i])];
-    if (!(flags & CHAR_SCHEME)) {
-      return tl::unexpected(errors::type_error);
-    }
+    plain_scheme = (flags & CHAR_SCHEME) != 0;
     needs_lowercase |= flags & CHAR_UPPER;
   }
 
-  if (needs_lowercase == 0) {
-    return std::string(input);
+  if (plain_scheme) {
+    if (needs_lowercase == 0) {
+      return std::string(input);
+    }
+    std::string result(input);
+    unicode::to_lower_ascii(result.data(), result.size());
+    return result;
   }
 
-  std::string result(input);
-  unicode::to_lower_ascii(result.data(), result.size());
-  return result;
+  // Slow path, the definition: let parseResult be the result of running the
+  // basic URL parser given value followed by "://dummy.test". Tabs and
+  // newlines are removed and a ':' inside the value ends the scheme, as for
+  // any URL string.
+  auto url = ada::parse<url_aggregator>(std::string(input) + "://dummy.test",
+                                        nullptr);
+  // If parseResult is failure, then throw a TypeError.
+  if (!url) {
+    return tl::unexpected(errors::type_error);
+  }
+  // Return parseResult's scheme.
+  std::string_view protocol = url->get_protocol();
+  protocol.remove_suffix(1);
+  return std::string(protocol);
 }
 
 tl::expected<std::string, errors> canonicalize_username(
